@@ -15,9 +15,9 @@
      COrder  the in-flow paragraphs of a document in the order their lines appear
              over the pages: must be the document order, each paragraph in one piece
      CUnits  C12 stream: the content-unit ids over the pages = 0 .. n-1
-             Also evaluated on every CWs case: the two statements of Properties/C02.v that are
-             proved only in part (idempotence with pre-line texts, the pre-line specification):
-             a generated counterexample would be reported (code 7)
+             Also evaluated on every CWs case (code 7): idempotence and the pre-line
+             specification -- both are theorems of Properties/C02.v, so this can only fail
+             if the check and the theorems drifted apart
      CDraw   one page: the text boxes laid out on it (visible?, text) and the
              DrawText calls the recording backend received for it: one call per
              visible non-blank text box, same text (up to trailing spaces)
@@ -26,7 +26,7 @@
    reordered / invented in a paragraph; 4 paragraphs out of order or split;
    5 units not conserved; 8 a collapsible space vanished inside a line (everything else
    matches); 9 a preserved line feed / <br> did not break the line (everything else matches); 6 text boxes and DrawText calls do not match;
-   7 an unproved statement (pw_idempotent_statement / whitespace_spec_preline_statement) fails. *)
+   7 idempotence / the pre-line specification fail on a generated text (they are theorems). *)
 From Verif Require Export Css.Whitespace Css.WhitespaceSpec Layout.TextDraw.
 From Coq Require Import List NArith Bool Arith.
 Import ListNotations.
